@@ -40,6 +40,29 @@ fn check_state_protocol(ctx: &Ctx, judgements: &[DocJudgement], out: &mut Vec<Vi
             continue;
         }
         let list = exec_list(sc, main);
+        // whatever scrut made of the way a test case ended: a test case that is not detached has
+        // ended (or was ended by scrut) before its successor is started - its shell writes the
+        // state when it exits, and its successor reads it when it starts
+        {
+            let mut prev: Option<(&str, &crate::facts::ProcFacts)> = None;
+            for (td, t) in &list {
+                let Some(&pid) = ctx.facts.delivered.get(&t.nonce).and_then(|p| p.first()) else { continue };
+                let p = &ctx.facts.procs[pid as usize];
+                if let Some((pn, pp)) = prev {
+                    let ended = pp.exit.is_some() && pp.exit_seq < p.spawn_seq;
+                    let killed = pp.killed.map(|k| k.2 < p.spawn_seq).unwrap_or(false);
+                    if !ended && !killed && pp.faults.is_empty() {
+                        out.push(v(
+                            "C12",
+                            "state-not-carried",
+                            Some(&t.nonce),
+                            format!("test {} was started while the shell of test {} - which writes the state when it exits - was still running", t.nonce, pn),
+                        ));
+                    }
+                }
+                prev = if sc.effective(main, td, t).detached { None } else { Some((t.nonce.as_str(), p)) };
+            }
+        }
         let mut doc_dir: Option<String> = None;
         // blob the next test case must find
         let mut expect_blob: Option<String> = None;
